@@ -3,8 +3,8 @@ C10 — the XML-name family (xs:NCName, xs:ID, xs:IDREF, xs:ENTITY, xs:Name, xs:
 Python-`re` character classes built on `\w` / `\d`; the translator enumerates them from the live patterns into
 `EPV.Gen.C10.{ncname,name,nmtoken}{First,Later}`.  The specification is XML 1.0 (Fifth Edition) NameStartChar /
 NameChar (`XSD.nameStartNoColon`, `XSD.nameCharNoColon`).  The two classifications differ on many code points
-(known finding F10n), so the theorem carries the hypothesis that the characters of the string are classified
-alike; kernel-checked witnesses show both directions of the deviation.
+(finding F10n) on the tree before fix-c10-4; the `_partial` lemmas carry the hypothesis that the characters of the string are
+classified alike, `name_tables_agree` discharges it for every string now that the patterns are the productions.
 -/
 import EPV.Gen.C10Tables
 import EPV.Lemmas.LexicalStrip
@@ -39,7 +39,7 @@ theorem nameLike_eq (first later specFirst specLater : List (Nat × Nat)) (t : L
     simp only [classifiedAlike, Bool.and_eq_true, beq_iff_eq, List.all_eq_true] at h
     simp only [Lex.matchNameLike, specNameLike, h.1, all_congr_mem r h.2]
 
-/-- PARTIAL (known finding F10n) **ctor_iff_lexical (xs:NCName, xs:ID, xs:IDREF, xs:ENTITY)**: for strings whose
+/-- lemma (pointwise form, used by `ncname_ctor_iff_lexical`) **ctor_iff_lexical (xs:NCName, xs:ID, xs:IDREF, xs:ENTITY)**: for strings whose
 collapsed form is classified alike, the constructor succeeds exactly on the NCNames of Namespaces in XML (XML 1.0
 5th edition name characters without the colon), value = the collapsed string.  Full statement (false, see
 `name_tables_deviate`): the same without the hypothesis. -/
@@ -51,7 +51,7 @@ theorem ncname_ctor_iff_lexical_partial (s : List Char)
   rw [collapse_eq_wsCollapse_all, nameLike_eq _ _ _ _ _ h]
   congr 1
 
-/-- PARTIAL (F10n) **ctor_iff_lexical (xs:Name)** -/
+/-- lemma (pointwise form) **ctor_iff_lexical (xs:Name)** -/
 theorem name_ctor_iff_lexical_partial (s : List Char)
     (h : classifiedAlike nameFirst nameLater (XSD.nameStartNoColon ++ XSD.colon) (XSD.nameCharNoColon ++ XSD.colon)
       (XSD.wsCollapse s) = true) :
@@ -61,7 +61,7 @@ theorem name_ctor_iff_lexical_partial (s : List Char)
   rw [collapse_eq_wsCollapse_all, nameLike_eq _ _ _ _ _ h]
   congr 1
 
-/-- PARTIAL (F10n) **ctor_iff_lexical (xs:NMTOKEN)** -/
+/-- lemma (pointwise form) **ctor_iff_lexical (xs:NMTOKEN)** -/
 theorem nmtoken_ctor_iff_lexical_partial (s : List Char)
     (h : classifiedAlike nmtokenFirst nmtokenLater (XSD.nameCharNoColon ++ XSD.colon) (XSD.nameCharNoColon ++ XSD.colon)
       (XSD.wsCollapse s) = true) :
@@ -124,7 +124,7 @@ theorem any_colonSplits (Q : List Char → Bool) : (t : List Char) → (P : List
         Bool.false_or, List.takeWhile_cons, List.dropWhile_cons, hn, if_true]
       exact ih
 
-/-- PARTIAL (F10n) **ctor_iff_lexical (xs:QName, lexical part)**: `AbstractQName.pattern` accepts the collapsed string exactly
+/-- lemma (pointwise form) **ctor_iff_lexical (xs:QName, lexical part)**: `AbstractQName.pattern` accepts the collapsed string exactly
 when it is a QName of Namespaces in XML (`NCName` or `NCName ':' NCName`, every split at a colon considered), for strings
 whose characters are classified alike. -/
 theorem qname_pattern_iff_lexical_partial (t : List Char) (h : alikeEverywhere t = true) :
@@ -216,7 +216,7 @@ theorem matchQName_rejects_white (x : List Char) (hx : ∃ w ∈ x, Lex.isPyWhit
       rw [nameLike_rejects _ _ w t1 t2 _ this, Bool.and_false]
   · exact nameLike_rejects _ _ w t1 t2 _ hw
 
-/-- PARTIAL (F10n) **ctor_iff_lexical (xs:QName, lexical part)** on the constructor's own normalisation: `AbstractQName.__init__`
+/-- lemma (pointwise form) **ctor_iff_lexical (xs:QName, lexical part)** on the constructor's own normalisation: `AbstractQName.__init__`
 strips (`qname.strip(' \\t\\n\\r')`) where XSD collapses; the pattern decides `QName` of the collapsed string. -/
 theorem qname_ctor_iff_lexical_partial (s : List Char) (h : alikeEverywhere (XSD.wsCollapse s) = true) :
     Lex.matchQName qnamePFirst qnamePLater qnameFirst qnameLater (Lex.pyStrip s) = XSD.qNameLex (XSD.wsCollapse s) := by
@@ -231,9 +231,8 @@ theorem id_idref_entity_pattern : ["ID", "IDREF", "ENTITY"].all (fun n =>
 
 `nameTablesAgree` compares the canonical forms (sorted, merged) of the ten generated tables with those of the XML
 productions.  `name_tables_status` evaluates it in the kernel and finds the value the translator computed code point
-by code point in Python — on the pinned tree `false` (finding F10n), on a tree whose patterns are the XML productions
-`true`; in that case the hypothesis of the `_of_tables` theorems is `name_tables_status` itself and the constructors
-are correct for every string. -/
+by code point in Python (a cross-check of translator and kernel; `false` before fix-c10-4, `true` since);
+`name_tables_agree` below asserts the agreement outright. -/
 
 def nameTablesAgree : Bool :=
   rangesAgree ncnameFirst XSD.nameStartNoColon && rangesAgree ncnameLater XSD.nameCharNoColon &&
@@ -267,22 +266,35 @@ theorem names_ctor_iff_lexical_of_tables (h : nameTablesAgree = true) (s : List 
   intro c _
   exact ⟨rangesAgree_sound _ _ d1 c, rangesAgree_sound _ _ d2 c⟩
 
-/-- ASCII letters, digits and punctuation are classified alike by the tables and the productions (kernel evaluation), so
-every ASCII string is in the scope of the `_partial` theorems.  (The characters classified differently on the pinned
-tree — e.g. U+00B2 accepted by the code as first character but no NameStartChar, U+2118 a NameStartChar the code
-rejects — are listed by the harness; they are not stated as theorems because they disappear with the repair.) -/
-theorem name_tables_ascii :
-    ((List.range 128).all fun n =>
-      (Lex.inRanges ncnameFirst (Char.ofNat n) == XSD.inSet XSD.nameStartNoColon (Char.ofNat n)) &&
-      (Lex.inRanges ncnameLater (Char.ofNat n) == XSD.inSet XSD.nameCharNoColon (Char.ofNat n)) &&
-      (Lex.inRanges nameFirst (Char.ofNat n) == XSD.inSet (XSD.nameStartNoColon ++ XSD.colon) (Char.ofNat n)) &&
-      (Lex.inRanges nameLater (Char.ofNat n) == XSD.inSet (XSD.nameCharNoColon ++ XSD.colon) (Char.ofNat n)) &&
-      (Lex.inRanges nmtokenFirst (Char.ofNat n) == XSD.inSet (XSD.nameCharNoColon ++ XSD.colon) (Char.ofNat n)) &&
-      (Lex.inRanges qnameFirst (Char.ofNat n) == XSD.inSet XSD.nameStartNoColon (Char.ofNat n)) &&
-      (Lex.inRanges qnameLater (Char.ofNat n) == XSD.inSet XSD.nameCharNoColon (Char.ofNat n))) = true := by
-  decide +kernel
+/-! ### full strength (since fix-c10-4, former finding F10n) -/
 
-/-- hence every ASCII string is in the scope of the three theorems (the hypothesis holds): test on literals -/
+/-- **the character classes of the live patterns are the XML productions** (kernel evaluation on the translator-generated
+tables): all ten tables, as sets of code points -/
+theorem name_tables_agree : nameTablesAgree = true := by decide +kernel
+
+/-- **ctor_iff_lexical (xs:NCName, xs:ID, xs:IDREF, xs:ENTITY)**, every string: the constructor succeeds exactly on the NCNames
+of Namespaces in XML (XML 1.0 5th edition name characters without the colon) of the collapsed string and returns it -/
+theorem ncname_ctor_iff_lexical (s : List Char) :
+    Lex.nameCtor ncnameFirst ncnameLater s = if XSD.ncNameLex (XSD.wsCollapse s) then some (XSD.wsCollapse s) else none :=
+  (names_ctor_iff_lexical_of_tables name_tables_agree s).1
+
+/-- **ctor_iff_lexical (xs:Name)**, every string -/
+theorem name_ctor_iff_lexical (s : List Char) :
+    Lex.nameCtor nameFirst nameLater s = if XSD.nameLex (XSD.wsCollapse s) then some (XSD.wsCollapse s) else none :=
+  (names_ctor_iff_lexical_of_tables name_tables_agree s).2.1
+
+/-- **ctor_iff_lexical (xs:NMTOKEN)**, every string -/
+theorem nmtoken_ctor_iff_lexical (s : List Char) :
+    Lex.nameCtor nmtokenFirst nmtokenLater s = if XSD.nmtokenLex (XSD.wsCollapse s) then some (XSD.wsCollapse s) else none :=
+  (names_ctor_iff_lexical_of_tables name_tables_agree s).2.2.1
+
+/-- **ctor_iff_lexical (xs:QName, lexical part)**, every string: `AbstractQName.__init__` (strip, then the pattern) accepts
+exactly `NCName` or `NCName ':' NCName` of the collapsed string -/
+theorem qname_ctor_iff_lexical (s : List Char) :
+    Lex.matchQName qnamePFirst qnamePLater qnameFirst qnameLater (Lex.pyStrip s) = XSD.qNameLex (XSD.wsCollapse s) :=
+  (names_ctor_iff_lexical_of_tables name_tables_agree s).2.2.2
+
+/-- tests on literals -/
 example : classifiedAlike ncnameFirst ncnameLater XSD.nameStartNoColon XSD.nameCharNoColon "a-b.c_1".toList = true ∧
     Lex.nameCtor ncnameFirst ncnameLater " a-b.c_1\n".toList = some "a-b.c_1".toList ∧
     Lex.nameCtor ncnameFirst ncnameLater "a:b".toList = none ∧ Lex.nameCtor nameFirst nameLater ":a:b".toList = some ":a:b".toList ∧
